@@ -8,3 +8,4 @@ package ctlcmd
 //@ func (*refreshCommand).hold
 //@   props C15
 //@   guard call HoldRefresh: [default-duration] arg3 == 0 && arg1 == snapstate.HoldAutoRefresh
+//@   guard call HoldRefresh: [action-recorded-first] called("(*Context).Cache")
